@@ -15,6 +15,7 @@ class Ctx(object):
         self.mods = self.src.import_native()
         self.T = F.Tables(self.mods)
         self.E = Engine(self.src)
+        self.E.explore_budget_s = 300 if run.tier == "quick" else 1500
         from pyvc import effects
         effects.install(self.E)
         self.E.lower_hints = list(self.T.RELEASE_TYPES)
